@@ -7,7 +7,9 @@ LEAN_TARGETS = ["Eliot.Properties.C13"]
 AUDIT = "Eliot/Audit/C13.lean"
 SKELETON_TARGETS = {"Sys.C13.skeleton_E9": "Eliot.Properties.C13Skel"}
 THEOREMS = ["Sys.C13.serializeFields_eq", "Sys.C13.serializers_called_once", "Sys.C13.serialized_exactly_once",
-            "Sys.C13.success_stages_serialized", "Sys.C13.serializer_failure_contained", "Sys.C13.per_kind_serializer"]
+            "Sys.C13.success_stages_serialized", "Sys.C13.serializer_failure_contained", "Sys.C13.per_kind_serializer",
+            "Sys.C13.per_kind_serializer_success", "Sys.C13.per_kind_serializer_failure", "Sys.C13.logNoSer_healthy_exact",
+            "Sys.buildLog_in_current", "Sys.buildLog_contextless"]
 RULE = ("programs of the core language with generated ActionType / MessageType definitions (0-4 declared fields, serializers that "
         "tag their output with the global call index so that a second application would be visible, raisers by mask, declared-but-"
         "missing fields) for start, success, failure and stand-alone messages, destinations registered at the start, global fields "
@@ -78,7 +80,7 @@ def oracle(ctx, case, real, rt):
     collect(prog)
     i = 0
     while i < len(writes):
-        m, has_ser, declared = writes[i]
+        m, has_ser, declared, tagging = writes[i]
         i += 1
         if not has_ser or m.get("message_type") == "eliot:traceback":
             continue
@@ -93,6 +95,15 @@ def oracle(ctx, case, real, rt):
         if got:
             typed_delivered += 1
             g = got[0]
+            for k in tagging or []:
+                gv = g.get(k)
+                if k in m and not (isinstance(gv, dict) and "ser" in gv):
+                    ctx.violation("declared field %r of a typed message was delivered as logged (%s), not as its serializer's output" % (k, canon(gv)), case)
+                    return
+            extra_keys = [k for k in g if k not in m and k not in gl]
+            if extra_keys:
+                ctx.violation("a typed message was delivered with keys %s it was not logged with" % extra_keys, case)
+                return
             for k, v in m.items():
                 if k in gl:
                     continue
